@@ -209,6 +209,17 @@ fn run_ops(sh: &Arc<Shared>, h: &Handle, thread: u64, ops: &[Value]) {
                 sh.hist.log(K::HandleCloneDropped);
             }
             "stop_faults" => detsim::stop_faults(),
+            "flush_storm" => {
+                // a steady stream of further flush requests (one per completed stream write),
+                // each polled once and then abandoned, until told to stop
+                let max = ju(op, "max", 1_000);
+                let mut n = 0;
+                while !sh.stop.load(Ordering::SeqCst) && n < max {
+                    do_flush(sh, h, &json!({"mode": "cancel"}));
+                    n += 1;
+                    let _ = detsim::block_on_key(sh.ctl.next_key, Some(detsim::clock_ns() + 1_000_000_000), detsim::site());
+                }
+            }
             "pressure" => {
                 // keep the queue non-empty without overflowing it, until told to stop
                 let target = ju(op, "target", 2).max(1);
@@ -265,7 +276,7 @@ pub fn liveness_bound(plan: &Value) -> Option<u64> {
 }
 
 fn has_pressure(ops: &[Value]) -> bool {
-    ops.iter().any(|o| js(o, "op", "") == "pressure")
+    ops.iter().any(|o| matches!(js(o, "op", ""), "pressure" | "flush_storm"))
 }
 
 /// Execute a queue plan inside the simulator. Returns None in `slot` only if the plan is invalid.
@@ -671,6 +682,31 @@ pub fn check_c01(plan: &Value, run: &QueueRun, d: &Digest) -> Option<Violation> 
             format!("{} in-band reports for {} validation failures", d.reports.len(), d.validation_failures),
         ));
     }
+    // the report is rate limited (once per second, second granularity): two reports can never
+    // be decided within the same whole second. Sound reading: e1 = clock at the validation
+    // failure that triggered report 1 (before its decision), l2 = clock when report 2 reached
+    // the stream (after its decision); same whole second => both decisions in that second.
+    {
+        let mut prev_fail_clock: Option<u64> = None;
+        let mut last_report_trigger: Option<u64> = None;
+        for e in run.hist.iter() {
+            match &e.k {
+                K::NextEnd { report: false, res: Res::Validation, .. } => prev_fail_clock = Some(e.clock),
+                K::NextBegin { report: true, .. } => {
+                    if let (Some(t1), l2) = (last_report_trigger, e.clock) {
+                        if t1 / 1_000_000_000 == l2 / 1_000_000_000 {
+                            return Some(Violation::new(
+                                "report_not_rate_limited",
+                                format!("two in-band error reports within one second of simulated time (triggered at {t1} ns and written at {l2} ns)"),
+                            ));
+                        }
+                    }
+                    last_report_trigger = prev_fail_clock;
+                }
+                _ => {}
+            }
+        }
+    }
     // each report directly follows a next() that returned Validation
     let stream_events: Vec<&Ev> = run
         .hist
@@ -785,6 +821,80 @@ pub fn gen_c01(rng: &mut Rng, tier: Tier) -> Value {
         "end_before_join": false,
         "post": [],
     })
+}
+
+/// Sustained load on a small queue: a pressure producer keeps it non-empty without ever
+/// overflowing it (so nothing may be lost), while other threads request flushes.
+pub fn gen_c01_sustained(rng: &mut Rng, _tier: Tier) -> Value {
+    let cap = 2 + rng.below(15);
+    let next_cost = *rng.pick(&[500u64, 20_000, 300_000]);
+    let flush_interval = next_cost * (2 + rng.below(200));
+    let nf = 1 + rng.below(2);
+    let mut producers = vec![];
+    for _ in 0..nf {
+        let mut ops = vec![json!({"op":"sleep","ns": next_cost * (1 + rng.below(40))})];
+        for _ in 0..(1 + rng.below(3)) {
+            let mode = *rng.pick(&["await", "await", "cancel"]);
+            ops.push(json!({"op":"flush","mode":mode}));
+            ops.push(json!({"op":"sleep","ns": next_cost * (1 + rng.below(60))}));
+        }
+        producers.push(Value::Array(ops));
+    }
+    let target = 1 + rng.below(cap - 1);
+    producers.push(json!([{"op":"pressure","target": target, "max": 60 + rng.below(240), "others_in_flight": 0}]));
+    let sched = gen_sched(
+        rng,
+        &SchedOpts { est_choices: 1_500, threads: nf + 2, jump_max_ns: flush_interval * 20, stall_clock_max_ns: flush_interval * 5, max_steps: 200_000 },
+    );
+    json!({
+        "scenario": "queue_fifo_sustained",
+        "sched": sched,
+        "boxed": rng.chance(0.5),
+        "capacity": cap,
+        "flush_interval_ns": flush_interval,
+        "shutdown_timeout_ns": 1_000_000_000_000_000u64,
+        "recorder": rng.chance(0.5),
+        "next_cost_ns": next_cost,
+        "gate": -1,
+        "script": if rng.chance(0.3) { Value::Array(gen_script(rng, &[0, 0, 60], 0.1)) } else { json!([]) },
+        "report_res": "O",
+        "flush_fail": [],
+        "producers": producers,
+        "main_ops": [],
+        "end": "drop",
+        "end_before_join": false,
+        "post": [],
+    })
+}
+
+pub struct QueueFifoSustained;
+
+impl Scenario for QueueFifoSustained {
+    fn name(&self) -> &'static str {
+        "queue_fifo_sustained"
+    }
+    fn property(&self) -> &'static str {
+        "C01"
+    }
+    fn weight(&self, _t: Tier) -> u32 {
+        1
+    }
+    fn generate(&self, rng: &mut Rng, tier: Tier) -> Value {
+        gen_c01_sustained(rng, tier)
+    }
+    fn run(&self, plan: &Value) -> Report {
+        let (out, run) = run_queue_plan(plan);
+        finish_report(Report::default(), out, run, plan, check_c01, false)
+    }
+    fn probes(&self) -> Vec<&'static str> {
+        vec!["flush_with_nonempty_queue"]
+    }
+    fn components(&self) -> Value {
+        queue_components()
+    }
+    fn rule(&self) -> &'static str {
+        "each run: capacity 2-16, a pressure producer keeps 1..capacity-1 entries in flight (never empty, never overflowing) for 60-300 entries, 1-2 threads request flushes (await/cancel) meanwhile; every stream write costs simulated time, flush interval = 2-200 writes. non-trivial / distinct as for queue_fifo"
+    }
 }
 
 pub struct QueueFifo;
@@ -902,6 +1012,9 @@ impl Scenario for QueueFifo {
     }
     fn property(&self) -> &'static str {
         "C01"
+    }
+    fn weight(&self, _t: Tier) -> u32 {
+        4
     }
     fn generate(&self, rng: &mut Rng, tier: Tier) -> Value {
         gen_c01(rng, tier)
@@ -1280,6 +1393,10 @@ pub fn gen_c04_liveness(rng: &mut Rng, _tier: Tier) -> Value {
         producers.push(Value::Array(ops));
     }
     producers.push(json!([{"op":"pressure","target": (cap - 1).max(1) - rng.below(2).min(cap.saturating_sub(2)), "max": 40 * bound, "others_in_flight": 0}]));
+    if rng.chance(0.5) {
+        // later requests must not starve earlier ones
+        producers.push(json!([{"op":"flush_storm","max": 40 * bound}]));
+    }
     // faults (stall / jumps) only in the first phase; main then declares "faults stop"
     let mut sched = gen_sched(
         rng,
